@@ -522,6 +522,8 @@ func check(id, tier, only string) int {
 		variants = append(variants, tag)
 		if o.skip != "" {
 			notes = append(notes, fmt.Sprintf("run %s skipped: %s", tag, o.skip))
+			fmt.Fprintf(os.Stderr, "vcheck: NOTE: optional run %s skipped: %s\n", tag, firstLines(o.skip, 6))
+			exhaustive = false
 			continue
 		}
 		nsamp := 0
